@@ -253,8 +253,11 @@ def sizes(tier):
 
 @st.composite
 def origin(draw, max_lat=60.0):
-    lat = draw(st.one_of(st.floats(-max_lat, max_lat), st.sampled_from([0.0, 50.87, -33.9, max_lat, -max_lat])))
-    lon = draw(st.one_of(st.floats(-179, 179), st.sampled_from([0.0, 4.7, -122.3, 151.2])))
+    # sampled_from is uniform (Hypothesis floats / integers concentrate on 0 and "simple" values)
+    m = int(max_lat)
+    lat = draw(st.sampled_from(list(range(-m, m + 1, 3)))) + draw(st.sampled_from([0.0, 0.13, 0.5, 0.87, 0.999]))
+    lat = max(-max_lat, min(max_lat, lat))
+    lon = draw(st.sampled_from(list(range(-178, 179, 7)))) + draw(st.sampled_from([0.0, 0.3, 0.7, 0.95]))
     return [lat, lon]
 
 
